@@ -579,6 +579,16 @@ for i := range ref.e {
         w('	}')
         w(self.enum_keys_seq('m', 'okK'))
         w('	zzvf.Assert(okK, what+"/key-order")')
+        # every stored key must be found through the hash table (bucket lookup), not only
+        # through the link list: catches entries re-bucketed wrongly by a table growth
+        w('	okL := true')
+        w('	for i := range ref.e {')
+        w('		if ref.emptyKey {')
+        w('			break')
+        w('		}')
+        w('		okL = zzvf.And(okL, m.%s(ref.e[i].k))' % t['contains'])
+        w('	}')
+        w('	zzvf.Assert(okL, what+"/every-stored-key-found-by-lookup")')
         if not self.isset:
             w('	okV := true')
             w(self.enum_values_seq('m', 'okV'))
